@@ -1,5 +1,5 @@
 import IOptProofs.EvFwd
-import IOptProofs.EvFinCert
+import IOptProofs.EvDimFacts
 import IOptProps.C07
 import Mathlib.Algebra.Order.Group.Abs
 import Mathlib.Algebra.Order.Group.Int
@@ -7,7 +7,8 @@ import Mathlib.Algebra.Order.Group.Int
 # C08 (integer layer): the evolvent is continuous — adjacency, nesting, coordinate bound  (worker a1)
 
 Statements about `Ev.cubeY n ds` (cube coordinates in units of `2^-(m+1)`, `m = ds.length`; one cell
-width is `2` units) for every dimension `n ∈ {2,3,4,5}` and **every** density `m`.
+width is `2` units) for every dimension `n` with `Ev.DimOK n` (`IOptProofs/EvDims.lean`: EVERY `n ≥ 2`) and
+**every** density `m`.
 `getI l i` is the model's coordinate accessor (`l.getD i 0`).
 The analytic Hölder inequality over ℝ is not part of this file.
 -/
@@ -17,14 +18,13 @@ namespace Ev
 /-- **C08 (adjacent)**: consecutive subintervals (`indexOf n ds' = indexOf n ds + 1`, same density)
 are mapped to face-adjacent cells: the centres differ in exactly one coordinate `c`, and there by
 exactly `2` units = one cell width. -/
-theorem C08_adjacent {n : Nat} (hn : n ∈ [2, 3, 4, 5]) {ds ds' : List Nat}
+theorem C08_adjacent {n : Nat} (hn : Ev.DimOK n) {ds ds' : List Nat}
     (hd : validDigits n ds) (hd' : validDigits n ds') (hl : ds.length = ds'.length)
     (hi : indexOf n ds' = indexOf n ds + 1) :
     ∃ c, c < n ∧ (∀ i, i ≠ c → getI (cubeY n ds) i = getI (cubeY n ds') i) ∧
       |getI (cubeY n ds) c - getI (cubeY n ds') c| = 2 := by
-  have F := evFacts_of_mem hn
-  have hn0 : 0 < n := by
-    simp only [List.mem_cons, List.not_mem_nil, or_false] at hn; omega
+  have F := evFacts_of_dimOK hn
+  have hn0 : 0 < n := hn.pos
   obtain ⟨hlen, hY⟩ := cubeY_spec F hn0 hd
   obtain ⟨hlen', hY'⟩ := cubeY_spec F hn0 hd'
   obtain ⟨c, hc, h1, h2⟩ := Yc_adjacent F (validState_init hn0) hd hd' hl hi
@@ -37,15 +37,14 @@ theorem C08_adjacent {n : Nat} (hn : n ∈ [2, 3, 4, 5]) {ds ds' : List Nat}
 /-- **C08 (nested)**: appending a digit `d` refines the cell: each coordinate becomes `2·Y + o`
 with `o = ±1`, where `o` is the level-`(m+1)` offset vector — so the `2^n` children of a subinterval
 lie inside the density-`m` cell of that subinterval. -/
-theorem C08_nested {n : Nat} (hn : n ∈ [2, 3, 4, 5]) {ds : List Nat} {d : Nat}
+theorem C08_nested {n : Nat} (hn : Ev.DimOK n) {ds : List Nat} {d : Nat}
     (hd : validDigits n (ds ++ [d])) :
     signVec n (step n (stateAfter n (St.init n) ds) d).2 ∧
     cubeY n (ds ++ [d]) =
       List.zipWith (fun Y s => 2 * Y + s) (cubeY n ds)
         (step n (stateAfter n (St.init n) ds) d).2 := by
-  have F := evFacts_of_mem hn
-  have hn0 : 0 < n := by
-    simp only [List.mem_cons, List.not_mem_nil, or_false] at hn; omega
+  have F := evFacts_of_dimOK hn
+  have hn0 : 0 < n := hn.pos
   have hd1 : validDigits n ds := (validDigits_append.1 hd).1
   have hd2 : d < 2^n := (validDigits_append.1 hd).2 d (List.mem_singleton.2 rfl)
   have hs := stateAfter_valid F (validState_init hn0) hd1
@@ -58,14 +57,14 @@ theorem C08_nested {n : Nat} (hn : n ∈ [2, 3, 4, 5]) {ds : List Nat} {d : Nat}
   rw [hY' i hi, Yc_snoc, getI_zipWith (by omega) (by rw [ho.1]; exact hi), hY i hi]
 
 /-- **C08 (nested, ∃-form)**: `cubeY n (ds ++ [d]) = 2·cubeY n ds + o` for some sign vector `o`. -/
-theorem C08_nested_exists {n : Nat} (hn : n ∈ [2, 3, 4, 5]) {ds : List Nat} {d : Nat}
+theorem C08_nested_exists {n : Nat} (hn : Ev.DimOK n) {ds : List Nat} {d : Nat}
     (hd : validDigits n (ds ++ [d])) :
     ∃ o, signVec n o ∧ cubeY n (ds ++ [d]) = List.zipWith (fun Y s => 2 * Y + s) (cubeY n ds) o :=
   ⟨_, C08_nested hn hd⟩
 
 /-- **C08 (nested, distinct children)**: the `2^n` children of a subinterval are mapped to `2^n`
 different sub-cells. -/
-theorem C08_children_distinct {n : Nat} (hn : n ∈ [2, 3, 4, 5]) {ds : List Nat} {d d' : Nat}
+theorem C08_children_distinct {n : Nat} (hn : Ev.DimOK n) {ds : List Nat} {d d' : Nat}
     (hd : validDigits n (ds ++ [d])) (hd' : validDigits n (ds ++ [d'])) (hne : d ≠ d') :
     cubeY n (ds ++ [d]) ≠ cubeY n (ds ++ [d']) := by
   intro h
@@ -77,15 +76,14 @@ theorem C08_children_distinct {n : Nat} (hn : n ∈ [2, 3, 4, 5]) {ds : List Nat
 less than `2·2^(m-p+1)` units in every coordinate, and by less than `2^(m-p+1)` units in all but at
 most one coordinate `c`.  (In cube units `2^-(m+1)`: `< 2·2^-p` resp. `< 2^-p`.)
 The statement does not need `p ≤ m` (for `p > m` it is the case `p = m`). -/
-theorem C08_coord_bound {n : Nat} (hn : n ∈ [2, 3, 4, 5]) {ds ds' : List Nat}
+theorem C08_coord_bound {n : Nat} (hn : Ev.DimOK n) {ds ds' : List Nat}
     (hd : validDigits n ds) (hd' : validDigits n ds') (hl : ds.length = ds'.length) (p : Nat)
     (hidx : |(indexOf n (ds.take p) : Int) - (indexOf n (ds'.take p) : Int)| ≤ 1) :
     (∀ i, |getI (cubeY n ds) i - getI (cubeY n ds') i| < 2 * 2^(ds.length - p + 1)) ∧
     ∃ c, c < n ∧
       ∀ i, i ≠ c → |getI (cubeY n ds) i - getI (cubeY n ds') i| < 2^(ds.length - p + 1) := by
-  have F := evFacts_of_mem hn
-  have hn0 : 0 < n := by
-    simp only [List.mem_cons, List.not_mem_nil, or_false] at hn; omega
+  have F := evFacts_of_dimOK hn
+  have hn0 : 0 < n := hn.pos
   obtain ⟨hlen, hY⟩ := cubeY_spec F hn0 hd
   obtain ⟨hlen', hY'⟩ := cubeY_spec F hn0 hd'
   rw [abs_le] at hidx
